@@ -10,6 +10,11 @@ open SaVerif.Expr.Gen SaVerif.Pratt
 
 def arithK (k : BinK) : Bool := k = .add || k = .sub || k = .mul || k = .mod
 
+def divK (k : BinK) : Bool := k = .truediv || k = .floordiv
+
+/-- the arithmetic operators of the fragment -/
+def numK (k : BinK) : Bool := arithK k || divK k
+
 def cmpK (k : BinK) : Bool :=
   k = .eq || k = .ne || k = .lt || k = .le || k = .gt || k = .ge || k = .is_ || k = .isnot
 
@@ -20,7 +25,7 @@ def NumU : U → Bool
   | .col _ ty => ty = .int || ty = .num
   | .li _ => true
   | .ln _ => true
-  | .bin k a b => arithK k && NumU a && NumU b
+  | .bin k a b => numK k && NumU a && NumU b
   | .neg a => NumU a
   | .subq _ ty => ty = .int || ty = .num
   | .cast ty a => (ty = .int || ty = .num) && NumU a
@@ -75,7 +80,7 @@ structure NumE (e : SaExpr) : Prop where
 
 /-- shapes `build` produces for boolean trees, with what `negate` needs to know -/
 def boolShape : SaExpr → Bool
-  | .binary _ _ _ (some n) none _ => coreBin n
+  | .binary op _ _ (some n) none _ => coreBin op && coreBin n
   | .clist op _ _ true _ => op = .and_ || op = .or_
   | .unary op _ _ => op = .inv
   | _ => false
@@ -109,6 +114,17 @@ theorem arithK_coreBin : ∀ k : BinK, arithK k = true → coreBin k.op = true :
 theorem arithK_isArith : ∀ k : BinK, arithK k = true → k.isArith = true := by
   intro k h
   cases k <;> simp [arithK] at h <;> rfl
+
+theorem numK_isArith : ∀ k : BinK, numK k = true → k.isArith = true := by
+  intro k h
+  cases k <;> simp [numK, arithK, divK] at h <;> rfl
+
+theorem numK_cases {k : BinK} (h : numK k = true) : arithK k = true ∨ divK k = true := by
+  simpa [numK] using h
+
+theorem divK_coreDiv : ∀ k : BinK, divK k = true → coreDiv k.op = true := by
+  intro k h
+  cases k <;> simp [divK] at h <;> rfl
 
 theorem cmpK_not_isArith : ∀ k : BinK, cmpK k = true → k.isArith = false := by
   intro k h
@@ -247,6 +263,17 @@ theorem constructForOp_core (l r : SaExpr) (op : Op) (ty : Ty) (n : Option Op)
     obtain ⟨c1, w1⟩ := mkBinary_WG l r op ty n hop hcl hwl hcr hwr
     exact ⟨c1, w1, rfl, Or.inl ⟨_, _, rfl⟩⟩
 
+/-- `_construct_for_op` for the two divisions: never flattened -/
+theorem constructForOp_div (l r : SaExpr) (op : Op) (ty : Ty) (n : Option Op)
+    (hop : coreDiv op = true)
+    (hcl : Core l = true) (hwl : WG l = true) (hcr : Core r = true) (hwr : WG r = true) :
+    constructForOp l r op ty n none = mkBinary l r op ty n none ∧
+    Core (mkBinary l r op ty n none) = true ∧ WG (mkBinary l r op ty n none) = true := by
+  have ha : associative op = false := by
+    cases op <;> simp [coreDiv] at hop <;> decide
+  obtain ⟨c1, w1⟩ := mkBinary_WG' l r op ty n (coreBinD_of_div hop) hcl hwl hcr hwr
+  exact ⟨by simp [constructForOp, ha], c1, w1⟩
+
 end SaVerif.Expr
 
 namespace SaVerif.Expr
@@ -264,7 +291,7 @@ theorem adapt_num (op : Op) (lt rt : Ty) (h : numTy lt = true) :
   · exact ⟨rfl, rfl⟩
 
 /-- `x <op> y` for an arithmetic operator over numeric elements (`_binary_operate`) -/
-theorem binaryOperate_num (x y : SaExpr) (k : BinK) (hk : arithK k = true) (hx : NumE x) (hy : NumE y) :
+theorem binaryOperate_num (x y : SaExpr) (k : BinK) (hk : numK k = true) (hx : NumE x) (hy : NumE y) :
     NumE (binaryOperate x k.op y) := by
   obtain ⟨h1, h2⟩ := adapt_num k.op (tyOf x) (tyOf y) hx.ty
   unfold binaryOperate
@@ -272,10 +299,15 @@ theorem binaryOperate_num (x y : SaExpr) (k : BinK) (hk : arithK k = true) (hx :
       (k.op, (adaptExpression k.op (tyOf x) (tyOf y)).2) := Prod.ext h1 rfl
   rw [e]
   simp only
-  obtain ⟨c, w, t, sh⟩ := constructForOp_core x y k.op (adaptExpression k.op (tyOf x) (tyOf y)).2 none
-    (arithK_coreBin k hk) hx.core hx.wg hy.core hy.wg
-  refine ⟨c, w, by rw [t]; exact h2, ?_⟩
-  rcases sh with ⟨a, b, he⟩ | ⟨_, cs, he⟩ <;> rw [he] <;> rfl
+  rcases numK_cases hk with hk | hk
+  · obtain ⟨c, w, t, sh⟩ := constructForOp_core x y k.op (adaptExpression k.op (tyOf x) (tyOf y)).2 none
+      (arithK_coreBin k hk) hx.core hx.wg hy.core hy.wg
+    refine ⟨c, w, by rw [t]; exact h2, ?_⟩
+    rcases sh with ⟨a, b, he⟩ | ⟨_, cs, he⟩ <;> rw [he] <;> rfl
+  · obtain ⟨he, c, w⟩ := constructForOp_div x y k.op (adaptExpression k.op (tyOf x) (tyOf y)).2 none
+      (divK_coreDiv k hk) hx.core hx.wg hy.core hy.wg
+    rw [he]
+    exact ⟨c, w, h2, rfl⟩
 
 theorem negImpl_num (x : SaExpr) (hx : NumE x) : NumE (negImpl x) := by
   obtain ⟨c, w⟩ := unary_WG x .neg (tyOf x) rfl hx.core hx.wg
@@ -297,7 +329,7 @@ theorem boolE_of_construct (x y : SaExpr) (op : Op) (n : Op) (hop : coreBin op =
   obtain ⟨c, w, _, sh⟩ := constructForOp_core x y op .bool (some n) hop hcx hwx hcy hwy
   refine ⟨c, w, ?_⟩
   rcases sh with ⟨a, b, he⟩ | ⟨ha, _⟩
-  · rw [he]; simpa [boolShape] using hn
+  · rw [he]; simp [boolShape, hn, hop]
   · rw [hna] at ha; cases ha
 
 /-- comparison of two numeric elements (`_boolean_compare`, non-constant right side) -/
@@ -355,8 +387,9 @@ theorem negate_bool (e : SaExpr) (h : BoolE e) : BoolE (negate e) := by
         simp only [Core, Bool.and_eq_true] at hc
         simp only [WG, Bool.and_eq_true] at hw
         simp only [negate, negateInBinary_core r n op hc.2]
-        obtain ⟨c, w⟩ := mkBinary_WG l r n ty (some op) hs hc.1.2 hw.1.2 hc.2 hw.2
-        exact ⟨c, w, by simpa [mkBinary, boolShape] using hc.1.1.1⟩
+        simp only [Bool.and_eq_true] at hs
+        obtain ⟨c, w⟩ := mkBinary_WG l r n ty (some op) hs.2 hc.1.2 hw.1.2 hc.2 hw.2
+        exact ⟨c, w, by simp [mkBinary, boolShape, hs.1, hs.2]⟩
   | clist op cs gr bl ty => exact unary_inv_boolE _ _ hc hw
   | unary op x ty =>
     simp only [negate]
@@ -437,8 +470,10 @@ theorem selfGroup_asbool_boolE (c : SaExpr) (h : BoolE c) : selfGroup (some .asb
   obtain ⟨hc, _, hs⟩ := h
   cases c with
   | binary op l r n esc ty =>
-    simp only [Core, Bool.and_eq_true] at hc
-    have := precOf_core_gt_asbool op (Or.inl hc.1.1.1)
+    have hop : coreBin op = true := by
+      cases n <;> cases esc <;> simp [boolShape] at hs
+      exact hs.1
+    have := precOf_core_gt_asbool op (Or.inl hop)
     simp [selfGroup, wouldGroup, this]
   | clist op cs gr bl ty =>
     simp only [Core, Bool.and_eq_true] at hc
@@ -881,7 +916,7 @@ theorem build_num : ∀ (u : U) (e : SaExpr), NumU u = true → build u = some e
       cases hb' : build b with
       | none => simp [ha, hb'] at hb
       | some y =>
-        simp only [ha, hb', arithK_isArith k hu.1.1, if_true, Option.some.injEq] at hb
+        simp only [ha, hb', numK_isArith k hu.1.1, if_true, Option.some.injEq] at hb
         subst hb
         exact binaryOperate_num x y k hu.1.1 (build_num a x hu.1.2 ha) (build_num b y hu.2 hb')
   | .ls _, _, hu, _ => by simp [NumU] at hu
